@@ -311,3 +311,66 @@ func nbRedirects() {
 	nontrivial("redirects")
 	count("redirect_responses_built", G*pick(200, 2000))
 }
+
+// nbSplitFrames: a request that reaches the stream server in pieces with pauses between them (the
+// length prefix split in two, the prefix alone, the body in halves): TCP delivers octets, not
+// frames. Each such request is answered; a connection closed instead is a violation, silence with
+// the connection open is inconclusive.
+func nbSplitFrames() {
+	const kind = "TCPServer"
+	srv, table, err := newNB(kind)
+	if err != nil {
+		inconclusive("split-frames: " + err.Error())
+		return
+	}
+	tr.reset(0)
+	if err := srv.Start(); err != nil {
+		inconclusive("split-frames: start: " + err.Error())
+		return
+	}
+	defer within(progressLimit, srv.Stop)
+	table.RegisterName("SPLITHELD", nbtns.Unique, net.IP{10, 14, 0, 1}, time.Hour)
+	id := uint16(0x5500)
+	for ci, cuts := range [][]int{{1}, {2}, {1, 2}, {3}, {1, 2, 3, 10}, {2, 30}, {0}} {
+		for rep := 0; rep < 2; rep++ {
+			id++
+			frame := nbFrame(nbQuery(id, "SPLITHELD"))
+			conn, err := net.Dial("tcp4", srv.VerifAddr().String())
+			if err != nil {
+				count("split_frame_probes_not_connected", 1)
+				continue
+			}
+			if tc, ok := conn.(*net.TCPConn); ok {
+				tc.SetNoDelay(true)
+			}
+			prev := 0
+			for _, c := range cuts {
+				if c > prev && c < len(frame) {
+					conn.Write(frame[prev:c])
+					prev = c
+					time.Sleep(15 * time.Millisecond)
+				}
+			}
+			conn.Write(frame[prev:])
+			conn.SetReadDeadline(time.Now().Add(20 * time.Second))
+			var l [2]byte
+			var b []byte
+			_, rerr := io.ReadFull(conn, l[:])
+			if rerr == nil {
+				b = make([]byte, int(l[0])<<8|int(l[1]))
+				_, rerr = io.ReadFull(conn, b)
+			}
+			evals.Add(1)
+			cs := map[string]any{"request_written_in_pieces_cut_at": cuts}
+			if ne, isNet := rerr.(net.Error); isNet && ne.Timeout() {
+				inconclusive(fmt.Sprintf("split-frames: no response within 20 s to a request written in pieces cut at %v (connection still open)", cuts))
+			} else if rerr != nil {
+				viol("nbns.TCPServer:split-frame:unanswered", fmt.Sprintf("a well-formed request written in pieces cut at %v (15 ms apart) got no response: %v", cuts, rerr), cs)
+			} else {
+				judgeNB(kind, fmt.Sprintf("split-frames/%d", ci), b, map[uint16]nbReq{id: {id: id, name: "SPLITHELD", ip: net.IP{10, 14, 0, 1}}}, map[uint16]bool{})
+			}
+			conn.Close()
+			nontrivial(fmt.Sprintf("split-frame|%d", ci))
+		}
+	}
+}
